@@ -28,7 +28,11 @@ type resetStream struct {
 
 func scenarioReset(w *world) {
 	cfg := genConfig(w, cfgOpts{wrapBias: true, maxLossPPM: 250000})
+	shifted := seqShiftConfig(w, cfg)
 	w.setup(cfg)
+	if shifted {
+		w.sim.noPerm = true
+	}
 	x := newXfer(w)
 	mon := w.installMonitor(x)
 	w.net.faultsOn = false
